@@ -1600,6 +1600,10 @@ class C02(PropBase):
     translators = ["format_layouts.py", "c02_reader.py"]
     bins = ["c02"]
     impl_mem_gb = 4
+    # wall-clock limits of one shard of cases: generous, so that a heavily loaded machine does not turn a slow run into an alarm
+    # (a hanging implementation case is caught by the harness's own per-case CPU-time watchdog; the model driver is total)
+    model_timeout = 3600
+    impl_timeout = 2400
     rule = ("a case = one dump model (header fields, 0..40 items per list, UTF-16 names incl. unpaired surrogates, CodeView records of "
             "every kind, build ids 0..64 bytes, regions 0..64 KiB anywhere in u64, list padding on/off; a directory with 2-4 entries of "
             "types the dump has, of named types without a reader (CommentStreamA, UnusedStream, Windows CE, LinuxCmdLine/Auxv ...) and of "
